@@ -40,7 +40,7 @@ func checkC16(c *Ctx) {
 	flowSelfTest(c)
 	// the task-pipeline rules recognise the two literal task lists and the context struct; what the pipelines compute is
 	// decided end to end by R9 on the cores themselves, so an unrecognised shape of these rules is a note (§7)
-	for _, rl := range []string{"R1.keyblocks", "R2.keys", "R2.kek", "R2.mic-enc", "R3.defuse", "R4.order", "R4.errvar", "R4.loop", "R8.echo", "R8.joinnonce"} {
+	for _, rl := range []string{"R1.keyblocks", "R2.keys", "R2.kek", "R2.mic-enc", "R2.chain-ctx", "R3.defuse", "R4.order", "R4.errvar", "R4.loop", "R8.echo", "R8.joinnonce"} {
 		r.Advisory(rl, "R9.join-e1", "R9.rejoin-e1")
 	}
 	c16KeyBlocks(c)
@@ -363,7 +363,8 @@ func c16Arguments(c *Ctx, lists map[string]*c16List) {
 	c.Run.Rule(rKey, "session keys: optNeg flag = the OptNeg the join-accept carries; AppSKey from AppKey under OptNeg else NwkKey; the other three from NwkKey; NetID/JoinEUI/JoinNonce/DevNonce from the context; results stored in their context fields")
 	c.Run.Rule(rKek, "key envelopes: NwkSKey/FNwkSIntKey/SNwkSIntKey/NwkSEncKey use the NS label+KEK, AppSKey the AS label+KEK, each with its own session key; 1.0 answers carry NwkSKey, 1.1 answers the three network keys")
 	c.Run.Rule(rMic, "join-accept MIC key = JSIntKey under OptNeg (always for rejoin) else NwkKey, with the context's join type, JoinEUI, DevNonce; encryption key = NwkKey (join) / JSEncKey (rejoin); MIC is set on every path before encryption")
-	c.Run.Rule(rChain, "labels, KEKs and device keys travel unchanged from the HTTP handler through the wrapper and the context literal; each KEK is looked up under the label it is sent with")
+	c.Run.Rule(rChain, "the HTTP handler hands the wrapper the decoded request, the device keys looked up by its DevEUI, the AS label looked up by its DevEUI, the NS label = its SenderID, and each KEK looked up under the label it is sent with; the wrapper's answer is what is written")
+	c.Run.Rule(rChain+"-ctx", "labels, KEKs and device keys travel unchanged from the wrapper through the handler into the context literal")
 	sp := c.Prog.SSAPkg(jsRel)
 	if sp == nil {
 		return
@@ -488,6 +489,8 @@ func c16Arguments(c *Ctx, lists map[string]*c16List) {
 				sort.Strings(fs)
 				k := name + "/" + tname + "/optNeg-source"
 				switch {
+				case len(fs) == 0:
+					c.Run.Unknown(rKey, k, fpos(c, t), "optNeg = "+optNegWant.String(), "no derivation call of the recognised shape in this task")
 				case allOK && len(fs) > 0:
 					c.Run.OK(rKey, k, fpos(c, t), "optNeg of every derivation = OptNeg of the join-accept's DLSettings = "+optNegWant.String(), strings.Join(fs, ", "), true)
 				case unk || !rooted:
@@ -758,29 +761,13 @@ func hasField(t types.Type, name string) bool {
 }
 
 func c16Chain(c *Ctx, rule, list string, L *c16List) {
+	// Two parts. From the wrapper inwards (wrapper → handler → context literal) the rule reads one shape of the code —
+	// six positional parameters — and what that part computes is decided end to end by R9, which fills the wrapper's
+	// parameters by type and name whatever their packaging: rule "<rule>-ctx", advisory. From the HTTP handler to the
+	// wrapper (which configuration lookups feed which role) R9 does not look: rule "<rule>", read by role, not position.
+	ruleCtx := rule + "-ctx"
 	h := L.loop.Fn // handleJoinRequest(reqPL, dk, asKEKLabel, asKEK, nsKEKLabel, nsKEK)
 	key := list + "/" + flow.ShortFunc(h)
-	idx := map[string]int{}
-	for i, p := range h.Params {
-		idx[p.Name()] = i
-	}
-	// context literal fields come from the handler's parameters of the same role
-	roles := []struct {
-		field string
-		param int
-	}{{L.req, 0}, {"deviceKeys", 1}, {"asKEKLabel", 2}, {"asKEK", 3}, {"nsKEKLabel", 4}, {"nsKEK", 5}}
-	if len(h.Params) != 6 {
-		c.Run.Unknown(rule, key+"/params", fpos(c, h), "6 parameters (request, device keys, AS label, AS KEK, NS label, NS KEK)", fmt.Sprint(len(h.Params)))
-		return
-	}
-	for _, r := range roles {
-		got := L.literal[r.field]
-		if got == nil {
-			got = &flow.Term{Op: "zero"}
-		}
-		checkTerm(c, rule, key+"/literal:"+r.field, ipos(c, L.loop.Load), "ctx."+r.field, got, flow.Param(r.param))
-	}
-	// wrapper → handler
 	sp := c.Prog.SSAPkg(jsRel)
 	var wrapper *ssa.Function
 	var wsite flow.Site
@@ -789,15 +776,33 @@ func c16Chain(c *Ctx, rule, list string, L *c16List) {
 			wrapper, wsite = fn, s
 		}
 	}
+	// context literal fields come from the handler's parameters of the same role
+	roles := []struct {
+		field string
+		param int
+	}{{L.req, 0}, {"deviceKeys", 1}, {"asKEKLabel", 2}, {"asKEK", 3}, {"nsKEKLabel", 4}, {"nsKEK", 5}}
+	if len(h.Params) != 6 {
+		c.Run.Unknown(ruleCtx, key+"/params", fpos(c, h), "6 parameters (request, device keys, AS label, AS KEK, NS label, NS KEK)", fmt.Sprint(len(h.Params)))
+	} else {
+		for _, r := range roles {
+			got := L.literal[r.field]
+			if got == nil {
+				got = &flow.Term{Op: "zero"}
+			}
+			checkTerm(c, ruleCtx, key+"/literal:"+r.field, ipos(c, L.loop.Load), "ctx."+r.field, got, flow.Param(r.param))
+		}
+		if wrapper != nil {
+			var ps []*flow.Term
+			for i := range wrapper.Params {
+				ps = append(ps, flow.Param(i))
+			}
+			passThrough(c, ruleCtx, list+"/"+flow.ShortFunc(wrapper)+"/args", wrapper, wsite, ps)
+		}
+	}
 	if wrapper == nil {
 		c.Run.Unknown(rule, key+"/caller", fpos(c, h), "a wrapper calls "+flow.ShortFunc(h), "none")
 		return
 	}
-	var ps []*flow.Term
-	for i := range wrapper.Params {
-		ps = append(ps, flow.Param(i))
-	}
-	passThrough(c, rule, list+"/"+flow.ShortFunc(wrapper)+"/args", wrapper, wsite, ps)
 	// HTTP handler → wrapper
 	var hh *ssa.Function
 	var hsite flow.Site
@@ -806,21 +811,26 @@ func c16Chain(c *Ctx, rule, list string, L *c16List) {
 			hh, hsite = fn, s
 		}
 	}
-	if hh == nil || len(hsite.Args) != 6 {
-		c.Run.Unknown(rule, list+"/http-handler", fpos(c, wrapper), "an HTTP handler method calls "+flow.ShortFunc(wrapper)+" with 6 arguments", "none")
+	if hh == nil {
+		c.Run.Unknown(rule, list+"/http-handler", fpos(c, wrapper), "an HTTP handler method calls "+flow.ShortFunc(wrapper), "none")
+		return
+	}
+	role, why := c16SiteRoles(wrapper, hsite)
+	if why != "" {
+		c.Run.Unknown(rule, list+"/http-handler", ipos(c, hsite.Instr), "the wrapper's parameters name the request, the device keys and the AS / NS label and KEK (by type and name)", why)
 		return
 	}
 	hk := list + "/" + flow.ShortFunc(hh)
 	p := ipos(c, hsite.Instr)
-	req := hsite.Args[0]
+	req := role["req"]
 	cfg := func(f string, arg *flow.Term, i int) *flow.Term {
 		return flow.Extract(flow.Call("dyn", flow.Param(0, "config", f), arg), i)
 	}
-	checkTerm(c, rule, hk+"/deviceKeys", p, "device keys (looked up by the request's DevEUI)", hsite.Args[1], cfg("GetDeviceKeysByDevEUIFunc", req.Field("DevEUI"), 0))
-	checkTerm(c, rule, hk+"/asKEKLabel", p, "AS KEK label (looked up by the request's DevEUI)", hsite.Args[2], cfg("GetASKEKLabelByDevEUIFunc", req.Field("DevEUI"), 0))
-	checkTerm(c, rule, hk+"/asKEK", p, "AS KEK (looked up under the AS label that is sent)", hsite.Args[3], cfg("GetKEKByLabelFunc", hsite.Args[2], 0))
-	checkTerm(c, rule, hk+"/nsKEKLabel", p, "NS KEK label (the request's SenderID)", hsite.Args[4], req.Field("BasePayload", "SenderID"))
-	checkTerm(c, rule, hk+"/nsKEK", p, "NS KEK (looked up under the NS label that is sent)", hsite.Args[5], cfg("GetKEKByLabelFunc", hsite.Args[4], 0))
+	checkTerm(c, rule, hk+"/deviceKeys", p, "device keys (looked up by the request's DevEUI)", role["dk"], cfg("GetDeviceKeysByDevEUIFunc", req.Field("DevEUI"), 0))
+	checkTerm(c, rule, hk+"/asKEKLabel", p, "AS KEK label (looked up by the request's DevEUI)", role["asLabel"], cfg("GetASKEKLabelByDevEUIFunc", req.Field("DevEUI"), 0))
+	checkTerm(c, rule, hk+"/asKEK", p, "AS KEK (looked up under the AS label that is sent)", role["asKEK"], cfg("GetKEKByLabelFunc", role["asLabel"], 0))
+	checkTerm(c, rule, hk+"/nsKEKLabel", p, "NS KEK label (the request's SenderID)", role["nsLabel"], req.Field("BasePayload", "SenderID"))
+	checkTerm(c, rule, hk+"/nsKEK", p, "NS KEK (looked up under the NS label that is sent)", role["nsKEK"], cfg("GetKEKByLabelFunc", role["nsLabel"], 0))
 	if !(req.Op == "after" && req.Val == "encoding/json.Unmarshal") {
 		c.Run.Unknown(rule, hk+"/request", p, "the request payload decoded from the body", req.String())
 	}
@@ -833,6 +843,81 @@ func c16Chain(c *Ctx, rule, list string, L *c16List) {
 			}
 		}
 	}
+}
+
+// c16SiteRoles: which argument (or field of a struct argument) of a call of the wrapper carries which role, decided
+// like R9 fills the wrapper's parameters: the request and the device keys by type, the two labels (string) and the two
+// KEKs ([]byte) by the innermost name that says AS or NS.
+func c16SiteRoles(wrapper *ssa.Function, site flow.Site) (map[string]*flow.Term, string) {
+	out := map[string]*flow.Term{}
+	var fill func(t types.Type, path string, term *flow.Term, depth int) string
+	fill = func(t types.Type, path string, term *flow.Term, depth int) string {
+		if depth > 3 {
+			return "parameter " + path + " nests too deep"
+		}
+		lp := strings.ToLower(path)
+		side := ""
+		if i, j := strings.LastIndex(lp, "as"), strings.LastIndex(lp, "ns"); i >= 0 || j >= 0 {
+			if i > j {
+				side = "as"
+			} else {
+				side = "ns"
+			}
+		}
+		set := func(role string) string {
+			if out[role] != nil {
+				return "two parameters take the " + role
+			}
+			out[role] = term
+			return ""
+		}
+		if pt, ok := t.Underlying().(*types.Pointer); ok {
+			if term.Op == "addr" && len(term.Args) == 1 {
+				return fill(pt.Elem(), path, term.Args[0], depth+1)
+			}
+			return "parameter " + path + " is a pointer whose target the rule does not see"
+		}
+		if n, ok := t.(*types.Named); ok {
+			switch n.Obj().Name() {
+			case "JoinReqPayload", "RejoinReqPayload":
+				return set("req")
+			case "DeviceKeys":
+				return set("dk")
+			}
+		}
+		switch u := t.Underlying().(type) {
+		case *types.Basic:
+			if u.Kind() == types.String && side != "" {
+				return set(side + "Label")
+			}
+		case *types.Slice:
+			if b, ok := u.Elem().Underlying().(*types.Basic); ok && b.Kind() == types.Uint8 && side != "" {
+				return set(side + "KEK")
+			}
+		case *types.Struct:
+			for i := 0; i < u.NumFields(); i++ {
+				if why := fill(u.Field(i).Type(), path+"."+u.Field(i).Name(), term.Field(u.Field(i).Name()), depth+1); why != "" {
+					return why
+				}
+			}
+			return ""
+		}
+		return "parameter " + path + " of type " + t.String() + " is not recognised"
+	}
+	if len(site.Args) != len(wrapper.Params) {
+		return nil, "argument count"
+	}
+	for i, p := range wrapper.Params {
+		if why := fill(p.Type(), p.Name(), site.Args[i], 0); why != "" {
+			return nil, why
+		}
+	}
+	for _, k := range []string{"req", "dk", "asLabel", "asKEK", "nsLabel", "nsKEK"} {
+		if out[k] == nil {
+			return nil, "no parameter of " + flow.ShortFunc(wrapper) + " takes the " + k
+		}
+	}
+	return out, ""
 }
 
 // ---------------------------------------------------------------------------
